@@ -141,13 +141,58 @@ Theorem C11_unset_idempotent_list_partial : forall d q pairs up fs now d1 ch1,
 Proof. exact (apply_unset_idempotent_list _). Qed.
 Print Assumptions C11_unset_idempotent_list_partial.
 
-(* without "plain" and "pairwise disjoint" the statement is false of the faithful
-   model: a.$[] next to a.1 (resolved paths do not conflict, the array grows),
-   and conflicting paths whose first invocation is a no-op (never recorded) *)
-Theorem C11_idempotence_refuted :
-  ~ idempotent_for the_matcher u_positional_and_index /\ ~ idempotent_for the_matcher u_conflict_after_noop.
-Proof. exact (idempotence_refuted _). Qed.
-Print Assumptions C11_idempotence_refuted.
+(* the static conflict check (repo_fixes/c11_static_conflict.diff): acceptance
+   of an update does not depend on the document as far as PATH conflicts go —
+   a conflicting update is rejected for every document *)
+Theorem C11_conflicting_update_rejected : forall u p,
+  conflicting_path u = Some p ->
+  forall d q up fs now, Apply d q u up fs now = Err.
+Proof. exact (conflicting_update_rejected _). Qed.
+Print Assumptions C11_conflicting_update_rejected.
+
+(* ... and the named paths of an accepted update are pairwise conflict-free *)
+Theorem C11_accepted_paths_conflict_free : forall d q u up fs now r,
+  Apply d q u up fs now = Ok r -> pairwise_free (named_paths u).
+Proof. exact (accepted_paths_conflict_free _). Qed.
+Print Assumptions C11_accepted_paths_conflict_free.
+
+(* the former counter-examples to idempotence are rejected now, whatever the
+   document: a.$[] next to a.1; 1.0 next to 1 (first invocation a no-op); and
+   a.$[].x next to a.1.y (the witness against the first draft of the check) *)
+Theorem C11_former_idempotence_witnesses_rejected :
+  conflicting_path u_positional_and_index = Some "a.1" /\
+  conflicting_path u_conflict_after_noop = Some "1" /\
+  conflicting_path u_positional_and_index_below = Some "a.1.y" /\
+  forall d q up fs now,
+    Apply d q u_positional_and_index up fs now = Err /\
+    Apply d q u_conflict_after_noop up fs now = Err /\
+    Apply d q u_positional_and_index_below up fs now = Err.
+Proof. exact (former_idempotence_witnesses_rejected _). Qed.
+Print Assumptions C11_former_idempotence_witnesses_rejected.
+
+(* idempotence on any number of plain field paths: pairwise disjointness is a
+   consequence of acceptance, no longer a hypothesis.  Partial: positional
+   paths, and paths with index segments (there a second application can be
+   REJECTED — the document is still unchanged — because the first one padded an
+   array with null: {$addToSet: {"a.0": {$each: []}, "a.1": 5}} on {a: []}) *)
+Theorem C11_idempotent_accepted_partial : forall d q k op pairs up fs now d1 ch1,
+  idem_operator the_matcher k op -> plain_pairs pairs -> field_pairs pairs ->
+  Apply d q [(k, VDoc pairs)] up fs now = Ok (d1, ch1) ->
+  exists ch2, Apply d1 q [(k, VDoc pairs)] up fs now = Ok (d1, ch2).
+Proof. exact (apply_idempotent_accepted _). Qed.
+Print Assumptions C11_idempotent_accepted_partial.
+
+(* ANY accepted update that combines $set / $min / $max / $addToSet / $pull /
+   $pullAll (several operators, any number of paths each) on plain field paths
+   is idempotent.  Partial: positional paths and index segments (see above);
+   $unset is covered on its own (C11_unset_idempotent_list_partial) *)
+Theorem C11_idempotent_update_partial : forall d q u up fs now d1 ch1,
+  idem_update the_matcher u ->
+  Forall (fun p => field_path (split_path p)) (named_paths u) ->
+  Apply d q u up fs now = Ok (d1, ch1) ->
+  exists ch2, Apply d1 q u up fs now = Ok (d1, ch2).
+Proof. exact (apply_idempotent_update _). Qed.
+Print Assumptions C11_idempotent_update_partial.
 
 (* a positional operator is only recognised at the start of a path segment
    (/repo 4eddedf): the path is cut exactly at a '.' separator, so the array
@@ -176,8 +221,8 @@ Print Assumptions C11_dollar_inside_segment_is_plain.
    recording (a permutation of the path-sorted list Apply returns) on the
    ORIGINAL document yields the resulting document.  Side conditions: the
    update holds no Missing marker (true of every BSON value), and recorded
-   $push index segments stay within the model's array-extension limit (an
-   artefact of Model/Access.v's put, not of lungo). *)
+   $push index segments are below 2^63 (always true in Go, where a slice
+   length fits an int; the model's lists are unbounded). *)
 Theorem C11_apply_changes_faithful : forall d q u up fs now d' sorted,
   has_missing (VDoc u) = false ->
   Apply d q u up fs now = Ok (d', sorted) ->
@@ -415,6 +460,18 @@ Proof.
   split; [repeat constructor|]. split; [repeat constructor|].
   cbn. split; [|split; [constructor | exact I]]. constructor; [|constructor].
   right. split; [discriminate | intros i H; discriminate].
+Qed.
+
+Example C11_ex_idem_update :
+  idem_update the_matcher [("$set", VDoc [("c.y", VInt32 7)]); ("$max", VDoc [("a", VInt32 3); ("n", VInt32 0)])] /\
+  Apply ex_doc [] [("$set", VDoc [("c.y", VInt32 7)]); ("$max", VDoc [("a", VInt32 3); ("n", VInt32 0)])] false [] 0 =
+  Ok ([("a", VInt32 3); ("b", VArr [VInt32 1; VInt32 2; VInt32 2]); ("c", VDoc [("x", VInt32 5); ("y", VInt32 7)]); ("n", VInt32 0)],
+      [("a", VInt32 3); ("c.y", VInt32 7); ("n", VInt32 0)]) /\
+  Apply ex_doc [] [("$set", VDoc [("c.y", VInt32 7)]); ("$max", VDoc [("a", VInt32 3); ("c", VInt32 0)])] false [] 0 = Err.
+Proof.
+  split; [|split; vm_compute; reflexivity].
+  eapply iu_cons; [apply io_set | repeat constructor |].
+  eapply iu_cons; [apply io_max | repeat constructor | constructor].
 Qed.
 
 Example C11_ex_pull_twice :
